@@ -83,6 +83,65 @@ def check_sat(assertions):
     return "unknown", None
 
 
+def _vars(t, cache={}):
+    k = t.get_id()
+    if k in cache:
+        return cache[k][1]
+    out = set()
+    seen = set()
+    stack = [t]
+    while stack:
+        x = stack.pop()
+        i = x.get_id()
+        if i in seen:
+            continue
+        seen.add(i)
+        if z3.is_app(x):
+            if x.num_args() == 0:
+                if x.decl().kind() == z3.Z3_OP_UNINTERPRETED:
+                    out.add(x.decl().name())
+            else:
+                if x.decl().kind() == z3.Z3_OP_UNINTERPRETED:
+                    out.add("fn:" + x.decl().name())
+                stack.extend(x.children())
+        elif z3.is_quantifier(x):
+            stack.append(x.body())
+    if len(cache) > 200000:
+        cache.clear()
+    cache[k] = (t, out)      # keep the term alive: z3 re-uses ids of collected terms
+    return out
+
+
+def relevant(hyps, goals):
+    """cone of influence: the hypotheses sharing (transitively) a symbol with the goals.
+    Dropping the others is sound for validity, and keeps 'sat' answers sat (the dropped ones are over
+    disjoint symbols and the path is feasible)."""
+    vs = set()
+    for g in goals:
+        vs |= _vars(g)
+    hv = [(h, _vars(h)) for h in hyps]
+    keep = [False] * len(hv)
+    changed = True
+    while changed:
+        changed = False
+        for i, (h, v) in enumerate(hv):
+            if not keep[i] and (v & vs or not v):
+                keep[i] = True
+                if not v <= vs:
+                    vs |= v
+                    changed = True
+    return [h for (h, _), k in zip(hv, keep) if k]
+
+
+def poly_zero(t):
+    """is the integer/real term t identically zero as a polynomial (syntactic normal form)?"""
+    try:
+        r = z3.simplify(t, som=True)
+    except z3.Z3Exception:
+        return False
+    return (z3.is_int_value(r) and r.as_long() == 0) or (z3.is_rational_value(r) and r.numerator_as_long() == 0)
+
+
 def valid(e, extra=()):
     """is e valid under path condition + active hypotheses (+extra)?  unknown counts as 'not valid'"""
     if isinstance(e, bool):
@@ -90,15 +149,18 @@ def valid(e, extra=()):
     e = z3.simplify(e)
     if z3.is_true(e):
         return True
+    if z3.is_eq(e) and e.arg(0).sort() != z3.BoolSort() and poly_zero(e.arg(0) - e.arg(1)):
+        return True
     if z3.is_false(e) and not CTX.path and not CTX.hyps and not extra:
         return False
     key = (e.get_id(), tuple(x.get_id() for x in CTX.path), tuple(x.get_id() for x in CTX.hyps),
            tuple(x.get_id() for x in extra))
     if key in CTX.cache:
-        return CTX.cache[key]
-    r, _ = check_sat(CTX.all_hyps() + list(extra) + [z3.Not(e)])
+        return CTX.cache[key][0]
+    goal = z3.Not(e)
+    r, _ = check_sat(relevant(CTX.all_hyps() + list(extra), [goal]) + [goal])
     res = (r == "unsat")
-    CTX.cache[key] = res
+    CTX.cache[key] = (res, e, tuple(CTX.hyps), tuple(extra))   # keep terms alive (ids are re-used otherwise)
     return res
 
 
@@ -106,7 +168,11 @@ def refute_or_prove(e, extra=()):
     """('proved',None) | ('refuted',model) | ('unknown',None) for validity of e under the context"""
     if isinstance(e, bool):
         return ("proved", None) if e else ("refuted", None)
-    r, m = check_sat(CTX.all_hyps() + list(extra) + [z3.Not(e)])
+    e = z3.simplify(e)
+    if z3.is_true(e):
+        return "proved", None
+    goal = z3.Not(e)
+    r, m = check_sat(relevant(CTX.all_hyps() + list(extra), [goal]) + [goal])
     if r == "unsat":
         return "proved", None
     if r == "sat":
